@@ -156,7 +156,7 @@ def main(tier, replay=None):
     odd = [(typ, None, p) for p in [payloads[0][1], payloads[-3][1]] for typ in (None, "garbage", "")]
     sessions = []
     per = 150
-    for cname, managers, bare in configs:
+    for cname, managers, bare in configs * (1 if tier == "quick" else 12):   # thorough: 12 different orders (what precedes an IQ matters to caches and one-shot state)
         cc = list(combos)
         r.shuffle(cc)
         for k in range(0, len(cc), per):
@@ -172,7 +172,7 @@ def main(tier, replay=None):
         for pi, (pname, p) in enumerate(payloads):
             for rt in ("result", "error"):
                 for frm in ("contact", "server-domain"):
-                    eid = "echo-%s-%d-%s-%s" % (cname, pi, rt, frm)
+                    eid = "echo-%s-%d-%s-%s-%d" % (cname, pi, rt, frm, len(sessions))
                     body = p if rt == "result" else p + "<error type='cancel'><service-unavailable xmlns='urn:ietf:params:xml:ns:xmpp-stanzas'/></error>"
                     ep.append([(eid, r.choice(["get", "set"]), SENDERS[frm], p), (eid, rt, SENDERS[frm], body)])
         r.shuffle(ep)
